@@ -21,13 +21,14 @@ EXPLANATION = (
     'basename, input group whole/member, an earlier job\'s output whole or by group member; a second read for '
     'fan-in), whether its output is written to an external destination; plus one global variant at a time '
     '(reverse creation order, equal/unsanitary/absent job names, literal noise with quotes/$/braces/uid-like text, '
-    'external copy of an input, no scratch clean-up, names that need shell quoting). The oracle is independent: it '
+    'external copy of an input, no scratch clean-up, names that need shell quoting, per-member external outputs, a local '
+    'input file uploaded by the client). The oracle is independent: it '
     'EXECUTES the submitted job specs on an abstract remote store + per-job local file system with shell word '
     'parsing (harness/C18_shell.py) and checks that every read finds the content its producer wrote, every upload '
     'finds its file, external destinations end up with the right content, no two different contents ever meet at '
     'one local or remote path, each consumer lists its producer in parent_ids, and the submitted script contains '
     'each command byte-identical except that every reference became ${BATCH_TMPDIR}<shlex.quote(path)>. '
-    'Bounded: quick N=3 (1 read/job), thorough N=3 (richer reads, fan-in on the last job) and N=4 (file/group '
+    'Bounded: quick N=3 (1 read/job) and a small N=4 space (file/group outputs, externals on, base variant), thorough N=3 (richer reads, fan-in on the last job) and N=4 (file/group '
     'outputs); variants and defect kinds are explored on a reduced space (outputs file/group, externals on).'
 )
 SRC = {
@@ -53,7 +54,7 @@ CLAUSES = {
            'job-not-submitted-exactly-once', 'nothing-submitted', 'batch-spec-inconsistent'}),
     'C': ('every reference becomes the shell-quoted local path of its resource and the rest of the command is byte-identical',
           {'command-text-altered', 'reference-not-shell-quoted', 'resource-mentioned-under-two-paths',
-           'reference-does-not-resolve-to-resource', 'script-does-not-parse', 'legitimate-pipeline-rejected'}),
+           'reference-does-not-resolve-to-resource', 'script-does-not-parse', 'exception-after-submission'}),
     'D': ('distinct resources never share a local or remote path', {'distinct-resources-share-path'}),
 }
 
@@ -61,12 +62,14 @@ CLAUSES = {
 def _configs(tier):
     common = dict(small_kinds=[1, 3], variants_on_small_space=True, special_fix_x=True, in_reads2=[])
     if tier == 'quick':
-        return [dict(common, tag='N3', N=3, variants=list(range(10)), out_kinds=[1, 2, 3, 4, 5, 6],
-                     in_reads1=['inA', 'ig'], two_reads_jobs=[], nfix=['o_0', 'o_1'], deadline_s=160)]
+        return [dict(common, tag='N3', N=3, variants=list(range(12)), out_kinds=[1, 2, 3, 4, 5, 6],
+                     in_reads1=['inA', 'ig'], two_reads_jobs=[], nfix=['o_0', 'o_1'], deadline_s=160),
+                dict(common, tag='N4', N=4, variants=[0], out_kinds=[1, 3], in_reads1=['inA'], two_reads_jobs=[],
+                     fix_x_all=True, nfix=['o_0', 'o_1'], deadline_s=160)]
     return [
-        dict(common, tag='N3', N=3, variants=list(range(10)), out_kinds=[0, 1, 2, 3, 4, 5, 6],
+        dict(common, tag='N3', N=3, variants=list(range(12)), out_kinds=[0, 1, 2, 3, 4, 5, 6],
              in_reads1=['inA', 'inB', 'ig', 'igm'], two_reads_jobs=[2], nfix=['o_0', 'o_1', 'o_2'], deadline_s=1300),
-        dict(common, tag='N4', N=4, variants=list(range(10)), out_kinds=[1, 3, 5, 6],
+        dict(common, tag='N4', N=4, variants=list(range(12)), out_kinds=[1, 3, 5, 6],
              in_reads1=['inA'], two_reads_jobs=[], nfix=['o_0', 'o_1', 'o_2'], deadline_s=1300),
     ]
 
@@ -120,6 +123,8 @@ def run(R):
              'uid counters of ResourceFile/ResourceGroup are reset to 0 before each pipeline (fresh interpreter)',
              'random tokens (secret_alnum_string, uuid4) are whatever the run draws: collisions of random tokens are '
              'outside the claim',
+             'a program the front end refuses (exception before anything is submitted) is counted and logged, not a '
+             'violation: C18 constrains what is submitted',
              'the oracle lets the backend strip leading/trailing white space of a command and nothing else',
              'vt/shapesym.py explores natively; exhaustiveness over the constrained space is re-proved by a solver '
              'query over the recorded path conditions')
@@ -149,7 +154,15 @@ def run(R):
         for r in rs:
             for k, v in r['variants_seen'].items():
                 variants_seen[k] = variants_seen.get(k, 0) + v
-        totals[tag] = dict(shards=len(rs), paths=paths, pipelines_submitted_or_rejected=pipelines,
+        rejections = {}
+        for r in rs:
+            for k, e in r['rejections'].items():
+                f = rejections.setdefault(k, {'count': 0, 'shape': e['shape']})
+                f['count'] += e['count']
+        submitted = sum(r['submitted'] for r in rs)
+        totals[tag] = dict(shards=len(rs), paths=paths, pipelines=pipelines, submitted=submitted,
+                           rejected_by_front_end=sum(r['rejected'] for r in rs),
+                           rejections={k: v['count'] for k, v in sorted(rejections.items())},
                            shapes_that_are_not_pipelines=sum(r['not_a_pipeline'] for r in rs),
                            violating_paths=sum(r['violating_paths'] for r in rs), per_variant=variants_seen,
                            solver_calls=sum(r['solver_calls'] for r in rs), cpu_seconds=round(secs, 1))
@@ -175,14 +188,19 @@ def run(R):
                                                          'first': w['errors'][:2]}, nontrivial=True)
         for cl, (text, _) in CLAUSES.items():
             name = f'{tag}: {text}'
-            detail = {'pipelines_checked': pipelines, 'shards': len(rs)}
+            detail = {'pipelines_checked': submitted, 'shards': len(rs)}
             if cl in hit_clauses:
                 continue      # reported above as a violation of this clause
-            if complete and unknown == 0 and pipelines > 0:
+            if complete and unknown == 0 and submitted > 0:
                 detail['outside_listed_finding_classes'] = True
                 R.ob(name, 'discharged', secs / 4, detail, nontrivial=(twins == pipelines))
             else:
                 R.ob(name, 'not_discharged', secs / 4, dict(detail, complete=complete, solver_unknown=unknown))
+        for k, v in sorted(rejections.items()):
+            R.log(f'[C18] NOTE {tag}: front end refused {v["count"]} programs before submitting anything (not a C18 '
+                  f'violation): {k} e.g. shape={json.dumps(v["shape"])}')
+        R.ob(f'{tag}: non-vacuity - pipelines are accepted and submitted', 'discharged' if submitted > 0 else 'not_discharged',
+             0.0, {'submitted': submitted, 'rejected_by_front_end': totals[tag]['rejected_by_front_end']}, nontrivial=submitted > 0)
         exh = [r['exhaustive'] for r in rs]
         name = f'{tag}: explored path conditions cover the whole constrained input space'
         if all(e == 'unsat' for e in exh):
